@@ -1,5 +1,251 @@
-Require Import V.Lib.Base V.C15.Model.
+(* C15 - option values are assigned with first-source-wins precedence and defaults last.
+   All theorems hold for EVERY option set (odesc), every per-option parser / store / leftover-of-a-refused-string
+   function, every parsed set, exclude set and source.  Vocabulary (coq/C15/Spec.v):
+     clean c          : the value is not in state value_fixed (true initially; re-established by every assign: c15_recorded)
+     skipped p e o    : pairs for o are ignored - o is not composing and (excluded or already recorded as parsed)
+     src_ok p e src   : no non-ignored non-composing option occurs twice, no non-ignored pair is refused by its parser
+     dup_at / bad_at  : src = pre ++ (o,v) :: post, pre is fine, (o,v) is the first duplicate / first refused pair
+     accepted o src   : parser results of the occurrences of o in src, in order (parser applied to the implicit
+                        value where the string is empty and the option has an implicit value)                       *)
+Require Import V.Lib.Base V.Gen.Consts_C15 V.C15.Model V.C15.Spec V.C15.Proofs V.C15.Proofs2.
 Local Open Scope Z_scope.
-Example c15_smoke : run_case [1; 2; 0; 0; 0; 1; 0; 1; 0; 1; 53] = [0; 0; 1; 0; 1; 1; 5].
+
+(* no exception  <->  the source has neither a duplicate nor a refused pair *)
+Theorem c15_no_error :
+  forall (val var : Type) (odesc : nat -> opt) (parser : nat -> str -> option val)
+         (store : nat -> val -> var -> var) (fail_write : nat -> str -> var -> var)
+         (parsed : list nat) (excl : option (list nat)) (cs : nat -> @cell val var) (src : list (nat * str)),
+    (forall o, clean val var (cs o)) ->
+    (err_of val var (assign_source val var odesc parser store fail_write parsed excl cs src) = None
+     <-> src_ok val odesc parser parsed excl src).
+Proof. exact no_error_iff. Qed.
+Print Assumptions c15_no_error.
+
+(* ValueError(multiple_occurrences, o, v)  <->  (o,v) is the first bad pair and it is a second occurrence of a
+   non-composing, not ignored option within this source *)
+Theorem c15_duplicate :
+  forall (val var : Type) (odesc : nat -> opt) (parser : nat -> str -> option val)
+         (store : nat -> val -> var -> var) (fail_write : nat -> str -> var -> var)
+         (parsed : list nat) (excl : option (list nat)) (cs : nat -> @cell val var) (src : list (nat * str)),
+    (forall o, clean val var (cs o)) ->
+    forall o v,
+      err_of val var (assign_source val var odesc parser store fail_write parsed excl cs src) = Some (mkErr ERR_MULTIPLE o v)
+      <-> exists pre, dup_at val odesc parser parsed excl src pre o v.
+Proof. exact duplicate_iff. Qed.
+Print Assumptions c15_duplicate.
+
+(* ValueError(invalid_value, o, v)  <->  (o,v) is the first bad pair and the parser of o refuses v; the error names option and value *)
+Theorem c15_invalid :
+  forall (val var : Type) (odesc : nat -> opt) (parser : nat -> str -> option val)
+         (store : nat -> val -> var -> var) (fail_write : nat -> str -> var -> var)
+         (parsed : list nat) (excl : option (list nat)) (cs : nat -> @cell val var) (src : list (nat * str)),
+    (forall o, clean val var (cs o)) ->
+    forall o v,
+      err_of val var (assign_source val var odesc parser store fail_write parsed excl cs src) = Some (mkErr ERR_INVALID_VALUE o v)
+      <-> exists pre, bad_at val odesc parser parsed excl src pre o v.
+Proof. exact invalid_iff. Qed.
+Print Assumptions c15_invalid.
+
+(* one fine source: ignored options are untouched; every other mentioned option is recorded as parsed, is back in
+   state unassigned, has received exactly the parser results of its occurrences in order, and its variable was
+   written with these values in order; the destructor's assertion holds (no fault) *)
+Theorem c15_source_values :
+  forall (val var : Type) (odesc : nat -> opt) (parser : nat -> str -> option val)
+         (store : nat -> val -> var -> var) (fail_write : nat -> str -> var -> var)
+         (parsed : list nat) (excl : option (list nat)) (cs : nat -> @cell val var) (src : list (nat * str)),
+    (forall o, clean val var (cs o)) -> src_ok val odesc parser parsed excl src ->
+    exists p' cs', assign_source val var odesc parser store fail_write parsed excl cs src = (None, p', cs', false) /\
+                   after_source val var odesc parser store parsed excl cs src p' cs'.
+Proof. exact source_ok. Qed.
+Print Assumptions c15_source_values.
+
+(* the exception path: after a duplicate the state is exactly the state after assigning the pairs before it ... *)
+Theorem c15_error_keeps_prefix_dup :
+  forall (val var : Type) (odesc : nat -> opt) (parser : nat -> str -> option val)
+         (store : nat -> val -> var -> var) (fail_write : nat -> str -> var -> var)
+         (parsed : list nat) (excl : option (list nat)) (cs : nat -> @cell val var) (src pre : list (nat * str)) (o : nat) (v : str),
+    (forall j, clean val var (cs j)) -> dup_at val odesc parser parsed excl src pre o v ->
+    exists p' cs', assign_source val var odesc parser store fail_write parsed excl cs pre = (None, p', cs', false) /\
+                   assign_source val var odesc parser store fail_write parsed excl cs src = (Some (mkErr ERR_MULTIPLE o v), p', cs', false).
+Proof. exact source_dup. Qed.
+Print Assumptions c15_error_keeps_prefix_dup.
+
+(* ... and after a refused value as well, except that the refused string may have written to o's variable
+   (never to its state or to its accepted values) *)
+Theorem c15_error_keeps_prefix_bad :
+  forall (val var : Type) (odesc : nat -> opt) (parser : nat -> str -> option val)
+         (store : nat -> val -> var -> var) (fail_write : nat -> str -> var -> var)
+         (parsed : list nat) (excl : option (list nat)) (cs : nat -> @cell val var) (src pre : list (nat * str)) (o : nat) (v : str),
+    (forall j, clean val var (cs j)) -> bad_at val odesc parser parsed excl src pre o v ->
+    exists p' cs0 cs', assign_source val var odesc parser store fail_write parsed excl cs pre = (None, p', cs0, false) /\
+                       assign_source val var odesc parser store fail_write parsed excl cs src = (Some (mkErr ERR_INVALID_VALUE o v), p', cs', false) /\
+                       (forall j, j <> o -> cs' j = cs0 j) /\
+                       c_state (cs' o) = c_state (cs0 o) /\ c_vals (cs' o) = c_vals (cs0 o) /\
+                       c_var (cs' o) = fail_write o (eff odesc o v) (c_var (cs0 o)).
+Proof. exact source_bad. Qed.
+Print Assumptions c15_error_keeps_prefix_bad.
+
+(* after EVERY assign, successful or not: no value is left in state fixed, the guard's assertion holds, `parsed`
+   grew by exactly the options that received a value, these are in state unassigned, all others kept their state *)
+Theorem c15_recorded :
+  forall (val var : Type) (odesc : nat -> opt) (parser : nat -> str -> option val)
+         (store : nat -> val -> var -> var) (fail_write : nat -> str -> var -> var)
+         (parsed : list nat) (excl : option (list nat)) (cs : nat -> @cell val var) (src : list (nat * str)),
+    (forall o, clean val var (cs o)) ->
+    exists e p' cs', assign_source val var odesc parser store fail_write parsed excl cs src = (e, p', cs', false) /\
+      (forall o, clean val var (cs' o)) /\
+      (forall o, mem o p' = true <-> (mem o parsed = true \/ c_vals (cs' o) <> c_vals (cs o))) /\
+      (forall o, c_vals (cs' o) <> c_vals (cs o) -> c_state (cs' o) = VALUE_UNASSIGNED) /\
+      (forall o, c_vals (cs' o) = c_vals (cs o) -> c_state (cs' o) = c_state (cs o)) /\
+      (forall o, exists l, c_vals (cs' o) = c_vals (cs o) ++ l).
+Proof. exact recorded_always. Qed.
+Print Assumptions c15_recorded.
+
+(* histories of sources that all assign without error: a non-composing option that is not yet recorded gets the
+   parser result of its SINGLE occurrence in the FIRST source that mentions it without excluding it; later
+   sources, excluded names and already recorded options are ignored *)
+Theorem c15_first_wins :
+  forall (val var : Type) (odesc : nat -> opt) (parser : nat -> str -> option val)
+         (store : nat -> val -> var -> var) (fail_write : nat -> str -> var -> var)
+         (h : list (option (list nat) * list (nat * str))) (parsed : list nat) (cs : nat -> @cell val var)
+         (es : list (option err)) (p' : list nat) (cs' : nat -> @cell val var) (f : bool),
+    (forall o, clean val var (cs o)) ->
+    run_sources val var odesc parser store fail_write parsed cs h = (es, p', cs', f) -> all_none es ->
+    f = false /\ (forall o, clean val var (cs' o)) /\
+    forall o, comp odesc o = false ->
+      match (if mem o parsed then None else first_src o h) with
+      | None => cs' o = cs o /\ mem o p' = mem o parsed
+      | Some (_, src) =>
+          mem o p' = true /\ c_state (cs' o) = VALUE_UNASSIGNED /\
+          exists v x, In (o, v) src /\ count_occ Nat.eq_dec (map fst src) o = 1%nat /\ parser o (eff odesc o v) = Some x /\
+                      c_vals (cs' o) = c_vals (cs o) ++ [x] /\ c_var (cs' o) = store o x (c_var (cs o))
+      end.
+Proof. exact first_wins. Qed.
+Print Assumptions c15_first_wins.
+
+(* composing options receive all their values, in order, across all sources (exclude sets and `parsed` do not matter) *)
+Theorem c15_composing :
+  forall (val var : Type) (odesc : nat -> opt) (parser : nat -> str -> option val)
+         (store : nat -> val -> var -> var) (fail_write : nat -> str -> var -> var)
+         (h : list (option (list nat) * list (nat * str))) (parsed : list nat) (cs : nat -> @cell val var)
+         (es : list (option err)) (p' : list nat) (cs' : nat -> @cell val var) (f : bool),
+    (forall o, clean val var (cs o)) ->
+    run_sources val var odesc parser store fail_write parsed cs h = (es, p', cs', f) -> all_none es ->
+    forall o, comp odesc o = true ->
+      c_vals (cs' o) = c_vals (cs o) ++ flat_map (fun s => accepted val odesc parser o (snd s)) h /\
+      c_var (cs' o) = store_all val var store o (flat_map (fun s => accepted val odesc parser o (snd s)) h) (c_var (cs o)) /\
+      mem o p' = mem o parsed || existsb (fun s => mentions o (snd s)) h.
+Proof. exact composing_all. Qed.
+Print Assumptions c15_composing.
+
+(* defaults over the options 0..n-1 in context order: if every needed default is accepted, exactly the options that are
+   not recorded as parsed, have a default and are not defaulted yet receive parser(default) and go to state defaulted;
+   all other options are untouched *)
+Theorem c15_defaults :
+  forall (val var : Type) (odesc : nat -> opt) (parser : nat -> str -> option val)
+         (store : nat -> val -> var -> var) (fail_write : nat -> str -> var -> var)
+         (n : nat) (parsed : list nat) (cs : nat -> @cell val var),
+    defaults_valid val var odesc parser parsed cs (seq 0 n) ->
+    exists cs', assign_defaults val var odesc parser store fail_write parsed cs (seq 0 n) = (None, cs') /\
+      forall o, (In o (seq 0 n) -> forall d, needs_default val var odesc parsed cs o d ->
+                   exists x, parser o (eff odesc o d) = Some x /\
+                             cs' o = mkCell VALUE_DEFAULTED (c_vals (cs o) ++ [x]) (store o x (c_var (cs o)))) /\
+                ((~ In o (seq 0 n) \/ forall d, ~ needs_default val var odesc parsed cs o d) -> cs' o = cs o).
+Proof.
+  intros val var odesc parser store fail_write n parsed cs H.
+  exact (defaults_ok val var odesc parser store fail_write (seq 0 n) parsed cs (seq_NoDup n 0) H).
+Qed.
+Print Assumptions c15_defaults.
+
+(* otherwise: ValueError(invalid_default) names the FIRST needed default that is refused and its string; the options
+   before it received their defaults, the options behind it are untouched *)
+Theorem c15_defaults_invalid :
+  forall (val var : Type) (odesc : nat -> opt) (parser : nat -> str -> option val)
+         (store : nat -> val -> var -> var) (fail_write : nat -> str -> var -> var)
+         (n : nat) (parsed : list nat) (cs : nat -> @cell val var),
+    ~ defaults_valid val var odesc parser parsed cs (seq 0 n) ->
+    exists pre o d post cs0 cs',
+      seq 0 n = pre ++ o :: post /\ defaults_valid val var odesc parser parsed cs pre /\
+      needs_default val var odesc parsed cs o d /\ parser o (eff odesc o d) = None /\
+      assign_defaults val var odesc parser store fail_write parsed cs pre = (None, cs0) /\
+      after_defaults val var odesc parser store parsed cs cs0 pre /\
+      assign_defaults val var odesc parser store fail_write parsed cs (seq 0 n) = (Some (mkErr ERR_INVALID_DEFAULT o d), cs') /\
+      (forall j, j <> o -> cs' j = cs0 j) /\
+      c_state (cs' o) = c_state (cs o) /\ c_vals (cs' o) = c_vals (cs o) /\
+      c_var (cs' o) = fail_write o (eff odesc o d) (c_var (cs o)).
+Proof.
+  intros val var odesc parser store fail_write n parsed cs Hnv.
+  destruct (defaults_dichotomy val var odesc parser parsed cs (seq 0 n)) as [H | (pre & o & d & post & Heq & Hv & Hn & Hp)]; [contradiction|].
+  destruct (defaults_err val var odesc parser store fail_write (seq 0 n) pre o d post parsed cs (seq_NoDup n 0) Heq Hv Hn Hp)
+    as (cs0 & cs' & H1 & H2 & H3 & H4 & H5 & H6 & H7).
+  exists pre, o, d, post, cs0, cs'.
+  split; [exact Heq|]. split; [exact Hv|]. split; [exact Hn|]. split; [exact Hp|]. split; [exact H1|]. split; [exact H2|].
+  split; [exact H3|]. split; [exact H4|]. split; [exact H5|]. split; [exact H6 | exact H7].
+Qed.
+Print Assumptions c15_defaults_invalid.
+
+(* an empty value string for an option with an implicit value stores the parser's result for the implicit value *)
+Theorem c15_implicit :
+  forall (val var : Type) (odesc : nat -> opt) (parser : nat -> str -> option val)
+         (store : nat -> val -> var -> var) (fail_write : nat -> str -> var -> var)
+         (o : nat) (i : str) (x : val) (parsed : list nat) (excl : option (list nat)) (cs : nat -> @cell val var),
+    (forall j, clean val var (cs j)) -> skipped odesc parsed excl o = false ->
+    o_impl (odesc o) = Some i -> parser o i = Some x ->
+    exists p' cs', assign_source val var odesc parser store fail_write parsed excl cs [(o, [])] = (None, p', cs', false) /\
+                   mem o p' = true /\ c_state (cs' o) = VALUE_UNASSIGNED /\ c_vals (cs' o) = c_vals (cs o) ++ [x] /\
+                   c_var (cs' o) = store o x (c_var (cs o)) /\ forall j, j <> o -> cs' j = cs j.
+Proof. exact implicit_used. Qed.
+Print Assumptions c15_implicit.
+
+(* ---------------- non-vacuity: the hypotheses are satisfiable by non-trivial states (concrete harness instance) ---------------- *)
+Definition ex_opts : list copt :=
+  [mkC 2 (mkOpt false None (Some [49; 48]));            (* o0 : int, default "10" *)
+   mkC 4 (mkOpt true None None);                          (* o1 : vector<int>, composing *)
+   mkC 0 (mkOpt false (Some [49]) None);                  (* o2 : flag *)
+   mkC 2 (mkOpt false None (Some [120]))].                (* o3 : int, default "x" (invalid) *)
+Definition ex_init : nat -> ccell := fun o => mkCell VALUE_UNASSIGNED [] (k_init (kind_of ex_opts o)).
+Definition ex_run := run_sources (list Z) (list Z) (desc_of ex_opts) (c_parser ex_opts) (c_store ex_opts) (c_fail ex_opts).
+Definition ex_hist : list (option (list nat) * list (nat * str)) :=
+  [(None, [(1%nat, [49]); (2%nat, []); (1%nat, [50; 44; 51])]);                  (* o1=1 o2 o1=2,3 *)
+   (Some [2%nat], [(0%nat, [55]); (2%nat, [48]); (1%nat, [52])]);                (* o0=7 o2=0(excluded) o1=4 *)
+   (None, [(0%nat, [56]); (2%nat, [48])])].                                      (* o0=8 o2=0 (both already parsed) *)
+
+Example c15_ex_clean : forall o, clean (list Z) (list Z) (ex_init o).
+Proof. intros o. left. reflexivity. Qed.
+
+Example c15_ex_history :
+  let '(es, p, cs, f) := ex_run [] ex_init ex_hist in
+  es = [None; None; None] /\ f = false /\
+  c_vals (cs 0%nat) = [[7]] /\ c_vals (cs 1%nat) = [[1]; [2; 3]; [4]] /\ c_var (cs 1%nat) = [1; 2; 3; 4] /\ c_vals (cs 2%nat) = [[1]] /\
+  map (fun o => mem o p) [0; 1; 2; 3]%nat = [true; true; true; false].
+Proof. vm_compute. repeat split; reflexivity. Qed.
+
+Example c15_ex_all_none : all_none (fst (fst (fst (ex_run [] ex_init ex_hist)))).
+Proof. vm_compute. repeat constructor. Qed.
+
+(* a source with a duplicate and one with a refused value, each behind a non-trivial prefix *)
+Example c15_ex_dup :
+  err_of _ _ (assign_source _ _ (desc_of ex_opts) (c_parser ex_opts) (c_store ex_opts) (c_fail ex_opts) [] None ex_init
+                [(1%nat, [49]); (0%nat, [53]); (0%nat, [54])]) = Some (mkErr ERR_MULTIPLE 0%nat [54]).
 Proof. vm_compute. reflexivity. Qed.
-Print Assumptions c15_smoke.
+Example c15_ex_bad :
+  err_of _ _ (assign_source _ _ (desc_of ex_opts) (c_parser ex_opts) (c_store ex_opts) (c_fail ex_opts) [] None ex_init
+                [(1%nat, [49]); (0%nat, [53; 120])]) = Some (mkErr ERR_INVALID_VALUE 0%nat [53; 120]).
+Proof. vm_compute. reflexivity. Qed.
+Example c15_ex_src_ok :
+  src_ok (list Z) (desc_of ex_opts) (c_parser ex_opts) [] None [(1%nat, [49]); (2%nat, []); (1%nat, [50; 44; 51])].
+Proof.
+  apply (c15_no_error _ _ (desc_of ex_opts) (c_parser ex_opts) (c_store ex_opts) (c_fail ex_opts) [] None ex_init _ c15_ex_clean).
+  vm_compute. reflexivity.
+Qed.
+(* defaults: the invalid default "x" of o3 is reported, o0 received its default 10 before *)
+Example c15_ex_defaults :
+  let '(e, cs) := assign_defaults _ _ (desc_of ex_opts) (c_parser ex_opts) (c_store ex_opts) (c_fail ex_opts) [1%nat] ex_init (seq 0 4) in
+  e = Some (mkErr ERR_INVALID_DEFAULT 3%nat [120]) /\ cs 0%nat = mkCell VALUE_DEFAULTED [[10]] [10].
+Proof. vm_compute. split; reflexivity. Qed.
+Example c15_ex_defaults_valid :
+  defaults_valid _ _ (desc_of ex_opts) (c_parser ex_opts) [] ex_init (seq 0 3).
+Proof.
+  intros o d Hin (_ & Hd & _). simpl in Hin.
+  destruct Hin as [<-|[<-|[<-|[]]]]; vm_compute in Hd; inversion Hd; subst; vm_compute; discriminate.
+Qed.
